@@ -271,4 +271,12 @@ example : c06ExampleState.lastPreparedRound ≤ c06ExampleState.round ∧ c06Exa
 example : (runI c06Cfg c06ExampleState [IOp.deliver (c06Msg tRoundChange 2 zeroRoot [4] 31 0), .compactUndecided, .timeout]).2.length = 2 := by
   decide +kernel
 
+/-- PRODUCTION WIRING of the controller (operator/validator/controller.go `SetupRunners`, closure `buildController`): the qbft.Config a
+    real node runs with has `SignatureVerification: true` unconditionally, a `ProposerF` that answers
+    `specqbft.RoundRobinProposer(state, round)` for the round ASKED about, the role's value check, the default domain and the
+    identifier built from it — the configuration the model's `Cfg` assumes (`verifySig` consulted, `proposer h r`). The harness
+    exercises exactly these objects in its production-config cases (harness/cmd/qbft/prodcfg.go). -/
+theorem C06_tie_production_wiring :
+    Gen.has_qbft_SetupRunners = [true, true, true, true, true, true, true] := by decide
+
 end Ssv.Qbft
